@@ -238,8 +238,7 @@ def main(argv=None):
             'solver_ms_total': round(sum(o['ms'] for o in obligations), 1),
             'scenarios': len(results), 'paths_explored': sum(r['paths'] for r in results),
             'functions_under_contract': fuc,
-            'obligation_list': [{'id': o['id'], 'status': o['status'], 'backend': o['backend'], 'ms': o['ms'],
-                                 'paths': o['instances'], 'kind': o['kind']} for o in obligations],
+            'obligation_list': _summarise(obligations),
             'samples': samples or [{'obligation': o['id']} for o in obligations[:3]],
             'bounded': (native or {}).get('bounded', []) if native else [],
             'bounded_note': 'bounded stand-ins are labelled bounded and are never counted in discharged',
@@ -277,6 +276,26 @@ def main(argv=None):
         print('CHECKER-ERROR no obligations generated')
         return 3
     return 1 if violations else 0
+
+
+def _summarise(obligations, cap=400):
+    """Per obligation text: how many scenario instances, how many discharged, solver time (the full per-instance
+    list would make the evidence file tens of MB for the larger properties)."""
+    agg = {}
+    for o in obligations:
+        a = agg.setdefault(o['name'], {'obligation': o['name'], 'kind': o['kind'], 'instances': 0, 'discharged': 0,
+                                       'refuted': 0, 'undecided': 0, 'ms': 0.0, 'backends': set(), 'example_scenario': o['scenario']})
+        a['instances'] += 1
+        a[o['status']] += 1
+        a['ms'] = round(a['ms'] + o['ms'], 2)
+        if o['backend']:
+            a['backends'].add(o['backend'])
+    out = []
+    for a in agg.values():
+        a['backends'] = sorted(a['backends'])
+        out.append(a)
+    out.sort(key=lambda a: (-(a['refuted'] + a['undecided']), a['obligation']))
+    return out[:cap]
 
 
 def write_replay(prop, ob, witness, tier):
